@@ -134,6 +134,7 @@ auto fit(const configurable_t& configurable, const dataset_t& dataset, const ind
     {
         const auto& gradients   = gfunction.gradients(outputs);
         const auto  fit_samples = sampler.sample(values, gradients);
+        NANO_VERIF_TRACE("gboost.round.samples", round, fit_samples);
 
         // choose the weak learner that aligns the best with the current residuals
         auto best_score    = wlearner_t::no_fit_score();
@@ -188,6 +189,7 @@ auto fit(const configurable_t& configurable, const dataset_t& dataset, const ind
 
         // update predictions
         outputs.vector() += woutputs.vector();
+        NANO_VERIF_TRACE("gboost.round.outputs", round, shrinkage_ratio, woutputs, outputs);
         ::nano::gboost::evaluate(targets_iterator, loss, outputs, values);
         result.update(round + 1, shrinkage_ratio, gstate, std::move(best_wlearner));
 
